@@ -284,7 +284,9 @@ class DataFrameToTensorFrameConverter:
 
                 tf.feat_dict.pop(stype)
                 tf.col_names_dict.pop(stype)
-        return tf
+        # NOTE: Re-create the frame so that its name -> (stype, idx) lookup
+        # table follows the merged dictionaries.
+        return TensorFrame(tf.feat_dict, tf.col_names_dict, tf.y)
 
     def __call__(
         self,
